@@ -75,6 +75,10 @@ namespace nmtools::utl
         {
             // TODO: assert/throw
             if (new_size <= Capacity) {
+                // like std::vector: the cells exposed by a growing resize are value-initialised
+                for (size_type i=size_; i<new_size; i++) {
+                    buffer[(index_type)i] = T{};
+                }
                 size_ = new_size;
             }
         }
